@@ -87,6 +87,8 @@ def run(chk):
 
 def replay(chk, path):
     case = json.load(open(path))["payload"]
+    if vlib.replay_generic(chk, case):
+        chk.finish(rule="re-validation of one recorded trace / batch job")
     if "ops" in case:
         hp, op = chk.path("h.in"), chk.path("h.out")
         vlib.write_ndjson(hp, [{"id": "replay", "parties": case["parties"], "ops": case["ops"], "views": case.get("views", [])}])
